@@ -283,16 +283,6 @@ theorem serrTraced_step (KC : Codec K) (VC : Codec V) (m : Store) (op : SOp K V)
 
 /-! ### the iteration loop, declaratively -/
 
-/-- The decodable prefix of the per-entry results. -/
-def goodPrefix (rs : List (Except SErr (K × V))) : List (K × V) :=
-  (rs.takeWhile Except.isOk).filterMap Except.toOption
-
-/-- The first decode error, if any. -/
-def firstErr (rs : List (Except SErr (K × V))) : Option SErr :=
-  match rs.dropWhile Except.isOk with
-  | .error e :: _ => some e
-  | _ => none
-
 @[simp] theorem goodPrefix_nil : goodPrefix ([] : List (Except SErr (K × V))) = [] := rfl
 @[simp] theorem goodPrefix_ok (kv : K × V) (rs : List (Except SErr (K × V))) :
     goodPrefix (.ok kv :: rs) = kv :: goodPrefix rs := by
